@@ -87,7 +87,8 @@ try:
         p = os.path.join(SCR, f)
         orig = open(p).read()
         lines = orig.splitlines(keepends=True)
-        props = [x for x in SPEED if x in set(anch.get(f, []) + ALWAYS)]
+        anchored = [x for x in SPEED if x in set(anch.get(f, []) + ALWAYS)]
+        props = anchored + [x for x in SPEED if x not in anchored]  # anchored checks first, then every other one
         for i, op, old, new in mutants_of(f, lines):
             if limit is not None and n >= limit: raise SystemExit
             n += 1
